@@ -19,6 +19,9 @@ ASSUMPTIONS = [
     'np.linspace produces the equally spaced knots (compared with the exact knot model to 8 ulp of the range)',
 ]
 EPS = np.finfo(float).eps
+# increasing affine maps t -> a*t + b of the exact model self-check (scales over 60 decades, huge offsets)
+AFFINE_MAPS = [(Fraction(1, 10 ** 30), Fraction(0)), (Fraction(1), Fraction(1700000000)), (Fraction(10 ** 30), Fraction(-7, 3)),
+               (Fraction(3, 7), Fraction(-10 ** 12)), (Fraction(1, 2 ** 40), Fraction(10 ** 9))]
 
 
 def x_of(rng, n, kind, lo=-3.0, hi=7.0):
@@ -207,6 +210,16 @@ def correspond(ctx):
         # knots model
         lines.append(f'c12.knots {q(x.min())} {q(x.max())} {nk} {deg}')
         metas.append(('knots', meta, knots, None))
+        # the basis built from x alone (knots from its extremes) and, exactly in Q, from an increasing affine image a*x + b of x: the two
+        # model outputs must be identical (theorem basis_magnitude_free), the first must be the real basis
+        if len(x) <= 45:
+            fa, fb = AFFINE_MAPS[len(lines) % len(AFFINE_MAPS)]
+            xq = [Fraction(float(v)) for v in x]
+            lines.append(f'c12.xbasis {nk} {deg} {qs(x)}')
+            metas.append(('xbasis', meta, B, knots))
+            lines.append('c12.xbasis %d %d %s' % (nk, deg, qs([fa * v + fb for v in xq])))
+            metas.append(('xbasis_aff', dict(meta, a=str(fa), b=str(fb)), B, knots))
+            ctx.count('affine-self-check')
         # normal equations
         y = rng.normal(0, 1, len(x))
         for wkind in ('random', 'zeros', 'gap', 'tiny', 'huge'):
@@ -299,6 +312,7 @@ def correspond(ctx):
                                      'z': None if z is None else z.tolist(), 'alike': alike, 'deg': 0, 'num_knots': 0}, True))
     res = drive(lines, timeout=1200)
     ctx.traces += len(lines)
+    last_xbasis = None
     for ln, r, (kind, meta, real, knots) in zip(lines, res, metas):
         deg = meta['deg']
         tol = 64 * EPS * (deg + 1)
@@ -318,6 +332,29 @@ def correspond(ctx):
             if len(mk) != len(real) or not np.allclose(mk, real, rtol=0, atol=16 * EPS * rngx * (len(real))):
                 dis.append(Disagreement('c12.model', 'model:knots', f'knot vector differs from the equally spaced model', dict(meta, check='knots'),
                                         property_level=True))
+        elif kind == 'xbasis':
+            ks, rows = r.split('|')
+            last_xbasis = rows
+            mk = np.array([float(v) for v in parse_qs(ks)])
+            delta = 16 * EPS * float(np.max(np.abs(knots))) * len(knots)     # the tolerance of the knots comparison above
+            if len(mk) != len(knots) or not np.allclose(mk, knots, rtol=0, atol=delta):
+                dis.append(Disagreement('c12.model', 'model:xknots', 'knots of the model built from min(x), max(x) differ from _spline_knots(x)',
+                                        dict(meta, check='knots'), True))
+            elif deg >= 1:
+                # the model evaluates on the EXACT knots, the code on the rounded ones (distance <= delta): a basis function of degree p on
+                # knots of spacing dx has slope <= 2p/dx, in x and in each of the p+2 knots it depends on
+                nb = len(knots) - deg - 1
+                dx = float(knots[deg + 1] - knots[deg])
+                M, lefts = dense_from_model(rows, deg, nb, real.shape[0])
+                Mf = np.array([[float(v) for v in row] for row in M])
+                if real.shape != Mf.shape or not np.allclose(real, Mf, rtol=0, atol=tol * 8 + 2 * deg * (deg + 3) * delta / dx):
+                    dis.append(Disagreement('c12.model', f'model:xbasis:deg={deg}', 'basis built from x differs from the exact model (knots from the '
+                                            'extremes of x, de Boor on them)', dict(meta, check='basis'), False))
+        elif kind == 'xbasis_aff':
+            ks, rows = r.split('|')
+            if rows != last_xbasis:
+                dis.append(Disagreement('c12.model', 'model:affine', f'MODEL self-check: the exact basis of a*x+b (a={meta["a"]}, b={meta["b"]}) differs from '
+                                        'the exact basis of x (theorem basis_magnitude_free violated?)', dict(meta, check='basis'), False))
         elif kind == 'btb':
             ab_s, rhs_s, speceq = r.split('|')
             if speceq != '1':
